@@ -459,6 +459,109 @@ func serveTCP(seed int64, good, bad, msgs int) string {
 // peerTable drives a real datagram server with a history of events and reports which peers have an entry in its peer
 // table after each event (hook VerifConnKeys):  w<i> well-formed request from peer i, m<i> undecodable datagram from
 // peer i, n<i> server-initiated connection to peer i (NewConn), c<i> the server closes its connection to peer i.
+// slowMonitorFactory: the application's factory for inactivity monitors takes a moment (the server calls it while it sets a
+// new peer's connection up)
+type slowMonitorFactory struct{ d time.Duration }
+
+func (o slowMonitorFactory) UDPServerApply(cfg *udpserver.Config) {
+	orig := cfg.CreateInactivityMonitor
+	cfg.CreateInactivityMonitor = func() udpclient.InactivityMonitor {
+		time.Sleep(o.d)
+		return orig()
+	}
+}
+
+// peerTableRace: per round a new peer; k goroutines call Server.NewConn(peer) at the same moment as the peer's first
+// datagram arrives.  One logical connection per peer: OnNewConn must have run once for it, every NewConn call must have
+// returned that connection, and the datagram must have been handled by it.
+func peerTableRace(rounds, k int) string {
+	l, err := coapNet.NewListenUDP("udp4", "127.0.0.1:0")
+	if err != nil {
+		return "rig-error listen"
+	}
+	defer l.Close()
+	var mu sync.Mutex
+	created := map[string]int{}
+	handledBy := map[string]*udpclient.Conn{}
+	r := mux.NewRouter()
+	_ = r.Handle("/echo", mux.HandlerFunc(func(w mux.ResponseWriter, req *mux.Message) {
+		if cc, ok := w.Conn().(*udpclient.Conn); ok {
+			mu.Lock()
+			handledBy[cc.RemoteAddr().String()] = cc
+			mu.Unlock()
+		}
+		_ = w.SetResponse(codes.Content, message.TextPlain, bytes.NewReader([]byte("x")))
+	}))
+	s := udp.NewServer(options.WithMux(r), options.WithErrors(func(error) {}), slowMonitorFactory{2 * time.Millisecond},
+		options.WithOnNewConn(func(cc *udpclient.Conn) {
+			mu.Lock()
+			created[cc.RemoteAddr().String()]++
+			mu.Unlock()
+		}))
+	served := make(chan error, 1)
+	go func() { served <- s.Serve(l) }()
+	defer func() {
+		s.Stop()
+		select {
+		case <-served:
+		case <-time.After(3 * time.Second):
+		}
+	}()
+	addr := l.LocalAddr().(*net.UDPAddr)
+	time.Sleep(30 * time.Millisecond)
+	for round := 0; round < rounds; round++ {
+		c, err := net.DialUDP("udp4", nil, addr)
+		if err != nil {
+			return "rig-error dial"
+		}
+		peer := c.LocalAddr().(*net.UDPAddr)
+		start := make(chan struct{})
+		got := make([]*udpclient.Conn, k)
+		var wg sync.WaitGroup
+		for i := 0; i < k; i++ {
+			wg.Add(1)
+			go func(i int) {
+				defer wg.Done()
+				<-start
+				cc, err := s.NewConn(peer)
+				if err == nil {
+					got[i] = cc
+				}
+			}(i)
+		}
+		wg.Add(1)
+		go func() {
+			defer wg.Done()
+			<-start
+			_, _ = c.Write(request(7, round+1, int32(2000+round), true))
+		}()
+		close(start)
+		wg.Wait()
+		_ = c.SetReadDeadline(time.Now().Add(500 * time.Millisecond))
+		buf := make([]byte, 256)
+		_, rerr := c.Read(buf)
+		c.Close()
+		mu.Lock()
+		n, hb := created[peer.String()], handledBy[peer.String()]
+		mu.Unlock()
+		if rerr != nil {
+			return fmt.Sprintf("race round %d: the peer's request was not answered", round)
+		}
+		if n != 1 {
+			return fmt.Sprintf("race round %d: %d connections were created for one peer", round, n)
+		}
+		for i := 0; i < k; i++ {
+			if got[i] == nil || got[i] != got[0] {
+				return fmt.Sprintf("race round %d: NewConn calls returned different connections", round)
+			}
+		}
+		if hb != got[0] {
+			return fmt.Sprintf("race round %d: the datagram was handled by another connection than the one NewConn returned", round)
+		}
+	}
+	return fmt.Sprintf("race ok rounds %d", rounds)
+}
+
 func peerTable(evs []string) string {
 	l, err := coapNet.NewListenUDP("udp4", "127.0.0.1:0")
 	if err != nil {
@@ -1399,6 +1502,10 @@ func TestC10(t *testing.T) {
 			} else {
 				fmt.Fprintln(w, serveTCP(seed, good, bad, msgs))
 			}
+		case len(f) == 3 && f[0] == "tablerace":
+			rounds, _ := strconv.Atoi(f[1])
+			k, _ := strconv.Atoi(f[2])
+			fmt.Fprintln(w, peerTableRace(rounds, k))
 		case len(f) >= 2 && f[0] == "table":
 			fmt.Fprintln(w, peerTable(f[1:]))
 		case len(f) == 3 && f[0] == "discover" && f[2] == "failsend":
